@@ -175,18 +175,25 @@ deriving DecidableEq, Repr
 
 def Gate.on (g : Gate) : Bool := g.enabled && g.validate
 
+/-- what one `add` call leaves behind: the parent afterwards, the warning issued (if any), and what the call
+    returned (the object) or raised -/
+structure Outcome where
+  parent : Obj
+  warn : Option Warn
+  result : Except Err Obj
+
 /-- `parent.add(child, hint, force, validate)` for a component instance `child`, given the member list of the
-    parent's class.  Result: the parent afterwards, and what the call returned (the object and the warning
-    issued) or raised. `valid` is `validate()` accepting (properties C02/C03 relate it to the schema). -/
+    parent's class. `valid` is `validate()` accepting (properties C02/C03 relate it to the schema); the
+    validation runs after the placement (or the refusal) and raises `ValueError` without undoing anything. -/
 def addCore (strict : Bool) (valid : Obj → Bool) (members : List MemberSpec) (g : Gate)
-    (parent child : Obj) (hint : Option Nat) (force : Bool) : Obj × Except Err (Obj × Option Warn) :=
+    (parent child : Obj) (hint : Option Nat) (force : Bool) : Outcome :=
   match select strict (targets members child.cls) hint with
-  | .error e => (parent, .error e)
-  | .ok none => if g.on && !valid parent then (parent, .error .invalid) else (parent, .ok (child, none))
+  | .error e => ⟨parent, none, .error e⟩
+  | .ok none => ⟨parent, none, if g.on && !valid parent then .error .invalid else .ok child⟩
   | .ok (some m) =>
     match place parent child m force with
-    | .error e => (parent, .error e)
-    | .ok (p', w) => if g.on && !valid p' then (p', .error .invalid) else (p', .ok (child, w))
+    | .error e => ⟨parent, none, .error e⟩
+    | .ok (p', w) => ⟨p', w, if g.on && !valid p' then .error .invalid else .ok child⟩
 
 /-- the code as repaired -/
 def addWith := addCore true
@@ -194,20 +201,19 @@ def addWith := addCore true
 def add (T : Table) (valid : Obj → Bool) (g : Gate) (parent child : Obj) (hint : Option Nat) (force : Bool) :=
   addWith valid (T.getMembers parent.cls) g parent child hint force
 
-/-- a sequence of `add` calls on one parent; the results in call order -/
+/-- a sequence of `add` calls on one parent; the outcomes in call order -/
 structure Call where
   child : Obj
   hint : Option Nat
   force : Bool
   gate : Gate
 
-def runCalls (T : Table) (valid : Obj → Bool) :
-    Obj → List Call → Obj × List (Except Err (Obj × Option Warn))
+def runCalls (T : Table) (valid : Obj → Bool) : Obj → List Call → Obj × List Outcome
   | p, [] => (p, [])
   | p, c :: cs =>
     let r := add T valid c.gate p c.child c.hint c.force
-    let rest := runCalls T valid r.1 cs
-    (rest.1, r.2 :: rest.2)
+    let rest := runCalls T valid r.parent cs
+    (rest.1, r :: rest.2)
 
 /-- every member of the parent's class has an instance attribute, list-valued where the member is a container
     (what the generated constructors establish) -/
